@@ -1,12 +1,14 @@
 package mon
 
 import (
+	"encoding/hex"
 	"fmt"
 	"math/rand/v2"
 	"os"
 	"reflect"
 	"sort"
 	"strings"
+	"unicode/utf8"
 
 	"verif/harness/internal/gen"
 	"verif/harness/internal/run"
@@ -306,9 +308,27 @@ var kC09Law = run.NewKind("c09.delimiting", func(c *run.Ctx, t c09Law) *run.Fail
 type c09Src struct {
 	Src  string
 	Seed uint64
+	Hex  string // the source in hex when it is not valid UTF-8 (JSON would not carry it)
+}
+
+func (t c09Src) decoded() c09Src {
+	if t.Hex != "" {
+		if b, err := hex.DecodeString(t.Hex); err == nil {
+			t.Src = string(b)
+		}
+	}
+	return t
+}
+
+func c09MkSrc(src string, seed uint64) c09Src {
+	if utf8.ValidString(src) {
+		return c09Src{Src: src, Seed: seed}
+	}
+	return c09Src{Src: strings.ToValidUTF8(src, "\ufffd"), Seed: seed, Hex: hex.EncodeToString([]byte(src))}
 }
 
 var kC09Print = run.NewKind("c09.print-roundtrip", func(c *run.Ctx, t c09Src) *run.Fail {
+	t = t.decoded()
 	q, err := gojq.Parse(t.Src)
 	if err != nil {
 		c.Inconclusive("does-not-parse")
@@ -359,6 +379,7 @@ func respace(r *rand.Rand, src string, pts []int) string {
 }
 
 var kC09Space = run.NewKind("c09.respacing", func(c *run.Ctx, t c09Src) *run.Fail {
+	t = t.decoded()
 	q, err := gojq.Parse(t.Src)
 	pts, _ := gojq.VerifLexPoints(t.Src)
 	if len(pts) == 0 {
@@ -404,7 +425,9 @@ var c09Surface = []string{
 // tag characters beyond the BMP, quotes, backslashes, slashes — spelled raw or through escapes.
 func c09StringLit(r *rand.Rand) string {
 	chars := []string{"\x01", "\x02", "\x07", "\x08", "\x0b", "\x0c", "\x0e", "\x1b", "\x1f", "\x7f", "\u0080", "\u0085", "\u009f", "\u00ad", "\u2028", "\u2029", "\ue000", "\ufffe", "\uffff", "\U000e0001", "\U0010ffff", "\U0001f600",
-		"a", "é", "日", " ", "'", "/", "#", "(", ")", "\\(", "$", "@", "`"}
+		"a", "é", "日", " ", "'", "/", "#", "(", ")", "\\(", "$", "@", "`",
+		// ill-formed UTF-8 (a lone continuation byte, an invalid byte, an overlong form, a surrogate, a truncated sequence): becomes U+FFFD in the literal
+		"\x80", "\xff", "\xc0\x80", "\xed\xa0\x80", "\xe2\x82", "\xf0\x9f\x98"}
 	escapes := []string{`\u0001`, `\u0000`, `\u001f`, `\u007f`, `\u0080`, `\u00ad`, `\u2028`, `\ud83d\ude00`, `\udb40\udc01`, `\ufffe`, `\n`, `\t`, `\r`, `\b`, `\f`, `\"`, `\\`, `\/`, `\u00e9`, `\u000b`, `\u001b`}
 	var sb strings.Builder
 	if r.IntN(5) == 0 {
@@ -519,8 +542,8 @@ func init() {
 			}
 			r := c.Rand("c09")
 			both := func(src string) {
-				kC09Print.Do(c, c09Src{Src: src})
-				kC09Space.Do(c, c09Src{Src: src, Seed: r.Uint64()})
+				kC09Print.Do(c, c09MkSrc(src, 0))
+				kC09Space.Do(c, c09MkSrc(src, r.Uint64()))
 			}
 			for _, s := range c09Surface {
 				both(s)
